@@ -24,6 +24,10 @@ CLAIMED = {
    text='Coq theorems (coq/props/C17.v) over a model of TransferCoordinator + TransferFuture for EVERY op sequence, every callback-script environment: done() is monotone, a finished transfer cannot be restarted, the first failure/cancellation is kept, only set_result / override / the user\'s set_exception-on-done replaces it, exception stored <=> status failed/cancelled and result() raises exactly it once the event is set, callbacks and cleanups run once in registration order and cleanups never under success; re-entrancy: no self-deadlock when announces happen in done states (pre-F2 variant refuted by witness). Tie checked every run: exhaustive op sequences (length 4 over 14 ops, 5 over the core alphabet), random sequences with scripts, 2-3 thread merges, re-runs with the genuine locks under a watchdog, static ast check that state writes sit inside the lock. System-level forward order (not-started -> queued -> running) is proved for the protocol model Sys.v (proofs/SysCoordInv.v).',
    ref='DESIGN.md 5.C17',
    note='Trusted: Coq kernel; extraction + OCaml driver + Python harness (correspondence only). Atomicity of each critical section is checked statically (ast), not proved; forward order of the non-done states is a system-level fact, not a class-level one.'),
+ 'C20': dict(
+   text='Coq theorems (coq/props/C20.v) over ALL submit/complete/shutdown sequences of a model of the CRT manager glue: permits + holders = 128 (count regenerated from source) in every reachable state, exactly one release per transfer on all four paths (construction failure, success, error, cancel), on_done order (publish/remove, then subscribers, then release, then the after-done flag), path downloads renamed on success / removed on error-cancel, shutdown returns iff every after-done flag is set, the (128+1)-th submit blocks rather than fails. Tie checked every run: differential of the real CRTTransferManager against the extracted model through a deterministic stub awscrt (exhaustive <=4-5 ops, sampled deeper, random, one run at 128+5 transfers, helper-thread blocking tests).',
+   ref='DESIGN.md 5.C20',
+   note='Partial: the real CRT client and its callback threads are not available in this sandbox (stub awscrt: a request finishes once, the future is resolved before on_done, a failing make_request creates no file). Exactly-one-release is stated for non-raising subscribers (a raising on_done subscriber leaks the permit and hangs shutdown: refuted lemma, outside C20\'s quantifier). Trusted: Coq kernel; gen_tables.py; extraction + OCaml driver + Python harness.'),
 }
 
 
